@@ -652,6 +652,19 @@ func (g *Gen) evalModLoc(text string, env *Env) []modLoc {
 	if strings.HasPrefix(text, "heap ") {
 		n := strings.TrimSpace(text[5:])
 		srt, ok := g.heapSorts[n]
+		if !ok && strings.HasPrefix(n, "[]") {
+			// element heap of a basic slice type that this function has not touched yet: declare it
+			for _, bt := range types.Typ {
+				if bt.Name() == n[2:] && bt.Kind() != types.Invalid {
+					names, sorts, _ := g.elemHeaps(bt)
+					for i := range names {
+						g.heapInit(names[i], sorts[i])
+					}
+					srt, ok = g.heapSorts[n]
+					break
+				}
+			}
+		}
 		if !ok {
 			panic(contractErr("modifies heap %s: unknown heap (not used before)", n))
 		}
